@@ -34,7 +34,7 @@ SHAPES = [
 ]
 SEQ_ONLY = {"cs_r", "csm_w", "csv_r", "dr_r", "dr", "e_dr", "dyn_r", "res_fmcs_w", "res_wcs_w", "res_wecs_w"}          # no ParJoin
 UNC = {"u_n", "u_m", "u_n_m", "u_mw", "u_bnot_m"}               # walk all 2^24 indices
-NO_GET = {"csv_r", "dr_r", "dr", "e_dr", "csm_w", "e_rsm", "res_fmcs_w", "res_wcs_w", "res_wecs_w"} | UNC           # no lend_get in the harness
+NO_GET = {"csv_r", "dr_r", "dr", "e_dr", "csm_w", "e_rsm", "res_fmcs_w", "res_wcs_w", "res_wecs_w"}           # no lend_get in the harness
 NO_LEND = {"e_rsm", "dr", "e_dr"}
 VEC_BACKED_MAX = 300000          # positions backed by VecStorage / DefaultVecStorage
 VEC_POS = {0, 4, 5, 9, 10, 14, 16}  # member positions whose storage is vector-backed (see join_dom.rs by_pos)
@@ -44,6 +44,9 @@ AROUND_TOP = [262142, 262143, 262144, 262145, 266240]   # both sides of the 64^3
 B3 = [0, 63, 4032, 4095, 258048, 258111, 262080, 262143]
 B4 = B3 + [16515072 + x for x in B3]          # fourth digit 63 (bit sets and map-backed storages only)
 NEAR = [0, 1, 2, 31, 62, 63, 64, 65, 127, 128, 4031, 4032, 4033, 4095, 4096, 4097]
+# memberships that lie entirely inside ONE top-level group other than the first (64^3 indices per group)
+UPPER1 = [262144, 262145, 262207, 266239, 266240, 299999]
+UPPER3 = [786432 + x for x in (0, 1, 63, 4095, 4096)]            # bit sets and map-backed storages only
 
 
 def family(U):
@@ -121,6 +124,11 @@ def gen_scripts(seed, tier, want_par):
             a = [u for u in B4 if rng.random() < 0.5]
             b = [u for u in B4 if rng.random() < 0.6]
             combos.append((a, b))
+        for U in (UPPER1, UPPER3):
+            fu = family(U)
+            rng.shuffle(fu)
+            for a in fu[: (6 if tier == "quick" else 40)]:
+                combos.append((a, [u for u in U if u in a or rng.random() < 0.6]))
         for _ in range(6 if tier == "quick" else 60):
             pool = B3[:4] + AROUND_TOP
             a = [u for u in pool if rng.random() < 0.7]
